@@ -168,18 +168,18 @@ func monC08(c *drv.Ctx) {
 	})
 
 	// (3) huge size fields in every size position of small containers
-	c.Stage("huge-sizes", 11*11*8, true, func(cs *drv.Case) {
+	hugeSizes := append([]uint32{0x7fffffff, 0x80000000, 0xffffffff, 0x7ffffff0, 0x10000000, 0x01000000, 1, 2}, gen.WrapSizes...)
+	c.Stage("huge-sizes", int64(11*11*len(hugeSizes)), true, func(cs *drv.Case) {
 		i := cs.Idx
 		kt := types[i%11]
 		vt := types[(i/11)%11]
-		sizes := []uint32{0x7fffffff, 0x80000000, 0xffffffff, 0x7ffffff0, 0x10000000, 0x01000000, 1, 2}
-		sz := sizes[(i/121)%8]
+		sz := hugeSizes[(i/121)%int64(len(hugeSizes))]
 		var bs [][]byte
 		var ts []byte
 		mp := ref.EncMapBegin(nil, kt, vt, sz)
 		ls := ref.EncListBegin(nil, vt, sz)
 		st := ref.U32(nil, sz)
-		tail := []byte{0, 0, 0, 1, 0, 0, 0, 0, 0, 0, 0, 0, 0, 0, 0, 0}
+		tail := []byte{0, 0, 0, 1, 0, 0, 0, 0, 0, 0, 0, 0, 0, 0, 0, 0, 0, 0, 0, 0, 0, 0, 0, 0, 0, 0, 0, 0, 0, 0, 0, 0, 0, 0, 0, 0}
 		bs = append(bs, append(mp, tail...), append(ls, tail...), append(st, tail...), mp, ls, st)
 		ts = append(ts, ref.MAP, ref.LIST, ref.STRING, ref.MAP, ref.SET, ref.STRING)
 		for k := range bs {
